@@ -13,7 +13,7 @@ import os
 import re
 import shutil
 
-from checks import frontend_common as fc
+from checks import c07, frontend_common as fc
 from vf import build, diag, express, tlc
 from vf.common import InfraError, mkdir
 
@@ -50,7 +50,7 @@ def run(ctx):
     ins = [x for x in fc.inputs(ctx, cases, wd) if x[3] is not None]
     # every single-token mutant (spec/TokMut.tla): whatever is printed must be a complete message about this file, and
     # an undeclared name at a using position must be quoted by an ERROR
-    tok = [x for x in fc.token_inputs(ctx, cases, wd, 1 if ctx.quick else 6) if x[3]["class"] != "tok_none"]
+    tok = [x for x in fc.token_inputs(ctx, cases, wd, 1 if ctx.quick else 6, extra=[("statements", c07.statement_host())]) if x[3]["class"] != "tok_none"]
     for x in tok:
         if x[2] == "fault":
             x[3]["lexeme"], x[3]["mustquote"] = "nosuch_x", True
